@@ -2,7 +2,7 @@
 import re
 from lib.facts import norm, callee_name, Origin, Site
 from lib.rules import agg_sites
-from lib.tables import describe
+from lib.tables import describe, enumerate_paths
 
 META = dict(
     level='other',
@@ -46,7 +46,7 @@ SCOPE = [
     're:^collector::rrdp::base::(LoadResult::read|Repository::read|ReadRepository::new)(::\\{closure#\\d+\\})*$',
     're:^collector::rrdp::base::RepositoryUpdate::\\w+(::\\{closure#\\d+\\})*$',
     're:^collector::rrdp::update::(SnapshotUpdate|DeltaUpdate)::\\w+(::\\{closure#\\d+\\})*$',
-    're:^<collector::rrdp::update::(SnapshotUpdate|DeltaUpdate) as rpki::rrdp::Process(Snapshot|Delta)>::\\w+$',
+    're:^<collector::rrdp::update::(SnapshotUpdate|DeltaUpdate) as rpki::rrdp::Process(Snapshot|Delta)>::\\w+(::\\{closure#\\d+\\})*$',
 ]
 LOCAL = re.compile(
     r'^(store::|utils::fatal::|<utils::fatal::|utils::archive::|collector::rrdp::archive::|tempfile::|'
@@ -368,7 +368,42 @@ def rule_fetch_decision_local(ctx):
         ctx.floor('K1', 'deciding switches in %s' % bn.split('::')[-1], n, 3)
 
 
+LOCAL_VARIANTS = {'Archive', 'Io', 'Corrupt'}
+
+
+def rule_wrapper_constructions(ctx):
+    """SnapshotError::RunFailed / DeltaError::RunFailed / UpdateError::Failed built in place (not through From): only on
+    paths that matched a LOCAL fault (an archive / I/O error variant), never for a data verdict of the remote content."""
+    scope = scope_bodies(ctx)
+    n = 0
+    for nid, b in sorted(scope.items()):
+        sites = []
+        for adt, var in (('collector::rrdp::update::SnapshotError', 'RunFailed'), ('collector::rrdp::update::DeltaError', 'RunFailed'),
+                         ('store::UpdateError', 'Failed')):
+            sites += [(adt, x) for x in agg_sites(b, adt, var)]
+        if not sites:
+            continue
+        ctx.bodies.add(nid)
+        for p in enumerate_paths(b, ctx.facts):
+            o = p.outcome or ''
+            if not re.search(r'(SnapshotError|DeltaError)::RunFailed\(|UpdateError::Failed\(', o):
+                continue
+            n += 1
+            cm = p.cond_map()
+            matched = set()
+            for v, labs in cm.items():
+                if v == 'err' or v.startswith('err@') or re.match(r'^(call:)?[\w:]*[Ee]rr', v):
+                    matched |= {str(x) for x in labs}
+            local = bool(matched & LOCAL_VARIANTS) and not (matched - LOCAL_VARIANTS - {'Err', 'fail'})
+            ctx.check(local, 'audit', 'wrapper-runfailed:%s:%s' % (nid, '+'.join(sorted(matched)) or 'unconditional'),
+                      'a run-failing wrapper error is built only for a local archive/I-O fault (%s)' % sorted(matched),
+                      '%s turns the error case %s into a run-failing error (%s): a verdict about the REMOTE content of one repository '
+                      '(duplicate object, mismatch ...) ends the whole validation run and every other CA loses its update'
+                      % (nid, sorted(matched) or 'any', o[:60]), loc=p.ret_site.loc() if p.ret_site else None)
+    ctx.floor('audit', 'in-place constructions of run-failing wrapper errors', n, 2)
+
+
 from props.C08 import rule_keep_prefix as rule_family  # noqa: E402  (shared: keep_prefix tests only the prefix's own family)
 
 
-RULES = [rule_fetch_decision_local, rule_sources, rule_explicit, rule_conversions, rule_rsync, rule_family]
+RULES = [rule_wrapper_constructions, rule_fetch_decision_local, rule_sources, rule_explicit, rule_conversions, rule_rsync, rule_family]
